@@ -128,7 +128,20 @@ pub fn gen_amount(t: &mut Tape, dom: Dom) -> AmountT {
             ];
             EXT[tt.below(EXT.len())]
         }
-        _ => [f64::INFINITY, f64::NEG_INFINITY, f64::NAN][tt.below(3)],
+        _ => {
+            // both signs of NaN (the one an invalid operation produces on
+            // x86-64 has the sign bit set), one with a payload and a
+            // signalling one
+            let sp = [
+                f64::INFINITY,
+                f64::NEG_INFINITY,
+                f64::NAN,
+                -f64::NAN,
+                f64::from_bits(0xfff8_0000_0000_0001),
+                f64::from_bits(0x7ff0_0000_0000_0001),
+            ];
+            sp[tt.below(sp.len())]
+        }
     }
 }
 
